@@ -12,6 +12,14 @@ KNOWN_CLASSES = {
     ('C06', 'synth_name_collision'): 'C06-synthesised-name-collision',
     ('C15', 'several_servers_not_env'): 'C15-several-servers-not-env',
     ('C01', 'panic_model_not_found'): 'C07-array-component-inline-items',
+    ('C01', 'abort_stack_overflow'): 'C01-recursive-model-cycle',
+    ('C16', 'abort_stack_overflow'): 'C01-recursive-model-cycle',
+}
+# classes of the compile oracle (harness/src/coracle.rs): files rustc is expected to reject -> open finding id
+COMPILE_CLASSES = {
+    'input_type_without_display': 'C02-input-type-without-display',
+    'nested_string_array_input': 'C02-nested-string-array-input',
+    'missing_model': 'C07-array-component-inline-items',
 }
 
 
@@ -59,6 +67,8 @@ def emit_run(tier, seed, d):
             a, b = ri[cid], rm.get(cid)
             na = 'ok' if a == 'ok' else a.split(':', 1)[-1]
             nb = 'ok' if b == 'ok' else (b or '?').split(':', 1)[-1]
+            # the model's fuel exhaustion is the real process overflowing its stack
+            na = 'diverge' if na == 'stack_overflow' else na
             agree[cid] = (na == nb)
             if na != nb and len(disagreements) < 40:
                 disagreements.append({'case': cid, 'what': 'outcome of the generation', 'impl': a, 'model': b, 'spec': dehex(cases.get(cid, ''))[:5000]})
@@ -97,7 +107,52 @@ def emit_run(tier, seed, d):
     return total, len(nontriv), feats, samples, disagreements, findings, files_equal
 
 
-def run(prop, tier, seed, extra_props=(), also_hir=False):
+def compile_run(tier, seed, d):
+    """rustc over whole crates emitted by the real CLI (stand-in dependency crates under /verif/standins).
+    Returns (stats, unexpected errors [(case, target, message, spec)], {class: [(case, msg)]}, unconfirmed)."""
+    import shutil
+    cd = f'{d}/crates'
+    shutil.rmtree(cd, ignore_errors=True)
+    os.makedirs(cd)
+    per = 8 if tier == 'quick' else 150
+    profs = ['tame', 'rich', 'tame', 'wild', 'tame', 'rich', 'tame', 'wild']
+
+    def gen(i):
+        sh(f'{HARNESS} emit-crates --seed {seed} --n {per} --out {cd} --shard {i} --profile {profs[i % len(profs)]} > /dev/null 2>{cd}/err_{i}.txt')
+    with ThreadPoolExecutor(16) as ex:
+        list(ex.map(gen, range(8)))
+    rc, out, _ = sh(f'python3 {ROOT}/tools/compile_crates.py {cd} --examples', timeout=7200)
+    specs = {}
+    gen_outcomes = {}
+    for f in glob.glob(f'{cd}/index_*.txt'):
+        for l in open(f):
+            q = l.rstrip('\n').split('\t')
+            if len(q) >= 4:
+                specs[q[0]] = q[3]
+                gen_outcomes[q[1]] = gen_outcomes.get(q[1], 0) + 1
+    stats = {'OK': 0, 'KNOWN': 0, 'ERR': 0, 'UNCONFIRMED': 0, 'generation_outcomes': gen_outcomes}
+    errs = []; known = {}; unconfirmed = []
+    for l in out.split('\n'):
+        q = l.split('\t')
+        if len(q) < 2:
+            continue
+        if q[0] == 'CARGO-FAILED':
+            errs.append(('-', 'cargo', l[:1500], ''))
+            continue
+        stats[q[1]] = stats.get(q[1], 0) + 1
+        if q[1] == 'ERR':
+            for e in q[2].split(' || ')[:3]:
+                errs.append((q[0], 'example' if e.startswith('[example]') else 'lib', e, dehex(specs.get(q[0], ''))[:5000]))
+        elif q[1] == 'KNOWN':
+            for c in q[2].split(','):
+                known.setdefault(c, []).append((q[0], q[3][:200]))
+        elif q[1] == 'UNCONFIRMED':
+            unconfirmed.append((q[0], q[2]))
+    shutil.rmtree(cd, ignore_errors=True)
+    return stats, errs, known, unconfirmed
+
+
+def run(prop, tier, seed, extra_props=(), also_hir=False, compile_layer=False):
     t0 = time.time()
     out = Outcome(prop)
     d = rundir(prop)
@@ -107,7 +162,7 @@ def run(prop, tier, seed, extra_props=(), also_hir=False):
     cli_ok, cli_log = build_cli()
     ps = proof_side(prop)
     total = nontriv = files_equal = 0; feats = {}; samples = []; disagreements = []; oracle = []; known_seen = {}
-    hir_part = None
+    hir_part = None; compile_part = None
     if not (har_ok and drv_ok and cli_ok):
         out.violation('build', {'what': 'harness, driver or CLI build failed', 'logs': {**logs, 'cli': cli_log}}, no_input=True)
     else:
@@ -122,6 +177,20 @@ def run(prop, tier, seed, extra_props=(), also_hir=False):
             disagreements += [dict(x, level='HIR') for x in hd if x]
             findings += hfind
             known_map.update(hirprops.KNOWN_CLASSES)
+        if compile_layer:
+            cstats, cerrs, cknown, cunconf = compile_run(tier, seed, d)
+            for cid, target, msg, spec in cerrs:
+                # a rejected example is C16's business, a rejected library C02's
+                findings.append((cid, 'C16' if target == 'example' else 'C02', '', 'rustc: ' + msg, spec))
+            for cls, lst in cknown.items():
+                kid = COMPILE_CLASSES.get(cls)
+                for cid, msg in lst:
+                    if kid:
+                        known_seen.setdefault(kid, []).append((cid, 'rustc: ' + msg))
+                    else:
+                        findings.append((cid, 'C02', '', f'rustc (class {cls}): {msg}', ''))
+            compile_part = dict(crates=cstats, unconfirmed_expected_rejections=cunconf[:10],
+                                rule='crates emitted by the real CLI (profiles tame/rich/wild, examples on), `cargo check --lib --examples` against /verif/standins + real serde, serde_json, chrono, tokio; an error outside the files the compile oracle expects to be rejected is a violation')
         mine = (prop,) + tuple(extra_props)
         for cid, p, cls, msg, spec in findings:
             if p not in mine:
@@ -133,7 +202,7 @@ def run(prop, tier, seed, extra_props=(), also_hir=False):
     known = {f['id']: f for f in load_known()['findings'] if f.get('status') == 'open'}
     for kid, lst in known_seen.items():
         if kid in known:
-            if known[kid].get('property') == prop:
+            if prop in (known[kid].get('properties') or [known[kid].get('property')]):
                 out.known_finding(f"{known[kid]['what']} (seen on {len(lst)} case(s), e.g. case {lst[0][0]}: {lst[0][1][:160]})")
         else:
             oracle.append({'case': lst[0][0], 'property': prop, 'message': lst[0][1], 'note': f'class {kid} is not listed open in known_findings.json'})
@@ -156,7 +225,7 @@ def run(prop, tier, seed, extra_props=(), also_hir=False):
                evaluations=total, distinct_nontrivial=nontriv, files_compared_equal=files_equal,
                rule='corpus then generated (spec, config) pairs: specs as in the HIR engine (rich profile; every third shard wild), configs = service names of one or more words, 0-4 derive strings over simple/nested/padded/duplicate/un-tokenisable, examples on/off; every file of every emitted crate is compared with the predicted file; non-trivial = at least one feature fired; distinct by input text',
                samples=samples, feature_histogram=feats, disagreements_checked=len(disagreements), oracle_failures=len(oracle),
-               known_findings_seen={k: len(v) for k, v in known_seen.items()}, proof_problems=ps['problems'], hir_level=hir_part)
+               known_findings_seen={k: len(v) for k, v in known_seen.items()}, proof_problems=ps['problems'], hir_level=hir_part, compile_level=compile_part)
     write_evidence(prop, tier, seed, 'proof', cov, time.time() - t0, len(out.violations),
                    assumptions=['names and documentation are ASCII or UTF-8 text; trimming is modelled for ASCII white space'])
     return out.finish()
